@@ -306,3 +306,34 @@ func (r *Report) Finish(verifDir string, p *Prog, explanation string, extra map[
 	}
 	return 0
 }
+
+// ImportRules runs the check of a neighbouring property and takes over the obligations of the named rules under new
+// ids (old id -> new id): the mechanism sits with the neighbour, the behaviour it protects is part of this property too.
+// A missing anchor of the neighbour, or a rule that produced nothing, is undecided here as well.
+func (r *Report) ImportRules(p *Prog, from string, check func(*Prog, *Report), ids map[string]string) {
+	sub := NewReport(from, r.Tier, r.Seed)
+	check(p, sub)
+	n := map[string]int{}
+	for _, o := range sub.Obs {
+		if o.Rule == "R0" {
+			for _, nw := range ids {
+				r.Undecided(nw, o.Key, o.Pos, from+": "+o.Detail)
+				n[nw]++
+			}
+			continue
+		}
+		if nw, ok := ids[o.Rule]; ok {
+			o.Rule = nw
+			r.add(o)
+			n[nw]++
+		}
+	}
+	for old, nw := range ids {
+		if st, ok := sub.Rules[old]; ok {
+			r.Rule(nw, st+" (shared with "+from+"-"+old+")")
+		}
+		if n[nw] == 0 {
+			r.Undecided(nw, "floor:"+from+"-"+old, "", "the shared rule produced no obligation")
+		}
+	}
+}
